@@ -1,8 +1,226 @@
-(* C11 -- ADTS framing and AudioSpecificConfig (stub; theorems follow) *)
-From Verif Require Import Lib.Base Lib.Sx Lib.Bitfield Model.Aac.
+(* C11 -- ADTS framing and AudioSpecificConfig round-trip and match the ISO layout.
+   Property theorems only; every proof is `exact <lemma>` or a short composition.
+
+   Model: Model/Aac.v (transcribed from aac/aac.go after the fix: commits f39ffb3 and 31fa840;
+   enum helper bodies, constants and validate()'s bounds regenerated from the source into
+   Gen/Gen_aac.v).  Vocabulary:
+     asc = (object type, sampling-frequency index, channel configuration)
+     adts_encode a raw            ADTSImpl{asc: a}.Encode(raw)
+     adts_decode st data          Decode(data) on an ADTS whose config is st:  (config afterwards, result);
+                                  result = Ok (raw, left) | Err code
+     adts_stream fuel st data []  decode frame after frame until nothing is left
+     asc_unmarshal st data / asc_marshal a     AudioSpecificConfig.UnmarshalBinary / MarshalBinary
+     spec_adts_frame h raw        the frame an ISO/IEC 13818-7 6.2 writer produces for the header fields h
+                                  (syntax table as a list of (value, width) bit fields, Model/Aac.v)
+     profile_of o                 ADTS profile of object type o: Main 1 -> 0, SSR 3 -> 2, LC 2 / HE 5 / HEv2 29 -> 1 *)
+From Verif Require Import Lib.Base Lib.Sx Lib.Bitfield Model.Aac Proofs.AacBits Proofs.Aac.
 Open Scope N_scope.
 
-Theorem c11_stub : adts_decode asc0 [] = (asc0, Err 1).
-Proof. reflexivity. Qed.
+(* The configurations the library accepts are exactly: object type in {Main 1, LC 2, SSR 3,
+   HE 5, HEv2 29}, sampling-frequency index 1..12, channel configuration 1..7. *)
+Theorem c11_accepted a :
+  validate a = Ok tt <->
+  (aobj a = 1 \/ aobj a = 2 \/ aobj a = 3 \/ aobj a = 5 \/ aobj a = 29) /\ 1 <= asr a <= 12 /\ 1 <= ach a <= 7.
+Proof. exact (validate_spec a). Qed.
 
-Print Assumptions c11_stub.
+(* Round trip: for every accepted configuration and every raw frame of 1..8184 bytes the
+   encoder's output decodes (on an ADTS object in any state) to the same raw bytes with
+   nothing left over, and the decoder reports the configuration's ADTS profile (as the object
+   type profile+1), sampling index and channels. *)
+Theorem c11_adts_rt a raw st :
+  validate a = Ok tt -> 1 <= lenN raw <= 8184 ->
+  exists adts, adts_encode a raw = Ok adts /\
+    adts_decode st adts = (mk_asc (profile_of (aobj a) + 1) (asr a) (ach a), Ok (raw, [])).
+Proof. intros V. apply adts_rt. apply validate_spec. exact V. Qed.
+
+(* the same through the public API on ONE object: SetASC(b0 b1 ...) with an accepted config,
+   Encode(raw), Decode(output) *)
+Theorem c11_setasc_rt b0 b1 rest raw :
+  b0 < 256 -> b1 < 256 ->
+  let a := mk_asc ((b0 * 256 + b1) / 2048) (((b0 * 256 + b1) / 128) mod 16) (((b0 * 256 + b1) / 8) mod 16) in
+  validate a = Ok tt -> 1 <= lenN raw <= 8184 ->
+  exists adts,
+    asc_unmarshal asc0 (b0 :: b1 :: rest) = (a, Ok tt) /\ adts_encode a raw = Ok adts /\
+    adts_decode a adts = (mk_asc (profile_of (aobj a) + 1) (asr a) (ach a), Ok (raw, [])).
+Proof. intros H0 H1 a V Hl. apply setasc_rt; try assumption. apply validate_spec. exact V. Qed.
+
+(* The encoder's output IS the ISO frame: MPEG-4 id 0, layer 0, protection absent, the
+   configuration's profile / index / channels, all flag bits 0, buffer fullness 63, one raw block. *)
+Theorem c11_encoder_iso_layout a raw :
+  validate a = Ok tt -> lenN raw <= 8184 ->
+  adts_encode a raw =
+  Ok (spec_adts_frame (mk_hdr 0 0 1 (profile_of (aobj a)) (asr a) 0 (ach a) 0 0 0 0 63 0 0) raw).
+Proof. intros V. apply encode_is_spec. apply validate_spec. exact V. Qed.
+
+(* ... and every other configuration is refused by Encode. *)
+Theorem c11_encode_rejects a raw : validate a <> Ok tt -> exists e, adts_encode a raw = Err e.
+Proof. intros V. apply adts_encode_rejects. intros Ha. apply V. apply validate_spec. exact Ha. Qed.
+
+(* ISO reader: a frame produced by the independent ISO 13818-7 writer -- either id, any
+   layer bits, with (protection_absent = 0, any 16-bit crc_check) or without CRC, profile
+   Main/LC/SSR, index 1..12, channels 1..7, every combination of private/original/home/
+   copyright bits, any buffer fullness, any number_of_raw_data_blocks field value, raw data
+   block of at least one byte with frame length <= 8191 -- followed by ANY bytes [tail],
+   decodes to exactly its raw data block, leaves exactly [tail], and reports profile+1,
+   index and channels. *)
+Theorem c11_iso_reader h raw tail st :
+  h_id h < 2 -> h_layer h < 4 -> h_pa h < 2 -> h_profile h < 3 -> 1 <= h_sfi h <= 12 -> h_priv h < 2 ->
+  1 <= h_ch h <= 7 -> h_orig h < 2 -> h_home h < 2 -> h_cbit h < 2 -> h_cstart h < 2 ->
+  h_fullness h < 2048 -> h_nblocks h < 4 -> h_crc h < 65536 ->
+  1 <= lenN raw -> (if h_pa h =? 0 then 9 else 7) + lenN raw <= 8191 ->
+  adts_decode st (spec_adts_frame h raw ++ tail)
+  = (mk_asc (h_profile h + 1) (h_sfi h) (h_ch h), Ok (raw, tail)).
+Proof.
+  intros. apply decode_spec_frame; unfold hdr_wf, hdr_accepted; try assumption; repeat split; try assumption; lia.
+Qed.
+
+(* every such frame starts with the 12-bit sync word *)
+Theorem c11_frame_sync h raw : hdr_wf h -> spec_adts_hdr_len h + lenN raw < 8192 ->
+  exists b rest, spec_adts_frame h raw = 255 :: b :: rest /\ b / 16 = 15.
+Proof. exact (spec_frame_sync h raw). Qed.
+
+(* Streams: the concatenation of any list of such frames (frame_ok = the hypotheses of
+   c11_iso_reader) decodes one frame at a time into exactly the list of (raw block, reported
+   configuration), in order, ends without error, and the ADTS object ends with the last
+   frame's configuration.  By c11_iso_reader each intermediate remainder is exactly the
+   concatenation of the frames not yet decoded, i.e. it starts at the next sync word. *)
+Theorem c11_stream fs st fuel :
+  Forall frame_ok fs -> (length (stream_bytes fs) < fuel)%nat ->
+  adts_stream fuel st (stream_bytes fs) [] = (map frame_out fs, last_asc st fs, Ok tt).
+Proof. intros Hf Hl. exact (adts_stream_frames fs Hf fuel st [] Hl). Qed.
+
+Theorem c11_stream_step f fs st :
+  frame_ok f -> adts_decode st (stream_bytes (f :: fs)) = (frame_asc (fst f), Ok (snd f, stream_bytes fs)).
+Proof. intros (Hw & Ha & H1 & H2). exact (decode_spec_frame (fst f) (snd f) (stream_bytes fs) st Hw Ha H1 H2). Qed.
+
+(* AudioSpecificConfig, all 65536 two-byte configs b0 b1 (and any bytes after them, any
+   receiver state): the fields are the 5+4+4 bits of the 16-bit value, the config is accepted
+   exactly when those fields are an accepted configuration, and then MarshalBinary gives the
+   two bytes back (the three unused low bits cleared). *)
+Theorem c11_asc_unmarshal st b0 b1 rest :
+  b0 < 256 -> b1 < 256 ->
+  let v := b0 * 256 + b1 in
+  let a := mk_asc (v / 2048) ((v / 128) mod 16) ((v / 8) mod 16) in
+  asc_unmarshal st (b0 :: b1 :: rest) = (a, validate a) /\
+  (validate a = Ok tt -> asc_marshal a = Ok [b0; (b1 / 8) * 8]) /\
+  (validate a <> Ok tt -> exists e, validate a = Err e /\ asc_marshal a = Err e).
+Proof.
+  intros H0 H1 v a. split; [exact (asc_unmarshal_fields st b0 b1 rest H0 H1)|]. split.
+  - intros V. rewrite asc_marshal_accepted by (apply validate_spec; exact V).
+    f_equal. exact (asc_bytes_fields b0 b1 H0 H1).
+  - intros V. unfold asc_marshal. pose proof (validate_no_panic a) as P.
+    destruct (validate a) as [[]|e|s]; [congruence|exists e; split; reflexivity|exfalso; exact (P s eq_refl)].
+Qed.
+
+(* the same, evaluated by the kernel for each of the 65536 configs (acceptance, fields, error
+   class, re-marshalled bytes; asc_check is defined in Proofs/Aac.v) *)
+Theorem c11_asc_sweep hi lo : hi < 256 -> lo < 256 -> asc_check hi lo = true.
+Proof. exact (asc_sweep_all hi lo). Qed.
+
+(* fewer than two bytes are refused and leave the receiver unchanged *)
+Theorem c11_asc_short st data : (length data < 2)%nat -> asc_unmarshal st data = (st, Err 8).
+Proof. exact (asc_unmarshal_short st data). Qed.
+
+(* marshal then unmarshal is the identity on accepted values; the marshalled bytes are the ISO
+   14496-3 layout audioObjectType(5) samplingFrequencyIndex(4) channelConfiguration(4) + 3 zero
+   bits; anything else is refused by MarshalBinary *)
+Theorem c11_asc_marshal a st rest :
+  validate a = Ok tt ->
+  asc_marshal a = Ok (pack_fields [ (aobj a, 5); (asr a, 4); (ach a, 4); (0, 3) ]) /\
+  exists b0 b1, asc_marshal a = Ok [b0; b1] /\ asc_unmarshal st (b0 :: b1 :: rest) = (a, Ok tt).
+Proof.
+  intros V. pose proof (proj1 (validate_spec a) V) as Ha. split; [exact (asc_marshal_accepted a Ha)|].
+  pose proof Ha as (Ho & Hs & Hc).
+  assert (aobj a < 32) by (destruct Ho as [->|[->|[->|[->| ->]]]]; lia).
+  destruct (asc_fields_bytes a) as (b0 & b1 & E & H0 & H1 & F); try lia.
+  exists b0, b1. split; [rewrite asc_marshal_accepted by exact Ha; f_equal; exact E|].
+  rewrite asc_unmarshal_fields by assumption. rewrite F, V. reflexivity.
+Qed.
+
+Theorem c11_asc_marshal_rejects a : validate a <> Ok tt -> exists e, asc_marshal a = Err e.
+Proof. intros V. apply asc_marshal_rejects. intros Ha. apply V. apply validate_spec. exact Ha. Qed.
+
+(* each sampling-frequency index converts to the frequency of ISO 13818-7 Table 35
+   (spec_iso_hz = 96000 88200 64000 48000 44100 32000 24000 22050 16000 12000 11025 8000 7350),
+   every other index to 0 -- no index panics (31fa840) *)
+Theorem c11_hz i : i <= 12 -> to_hz i = Ok (nth (N.to_nat i) spec_iso_hz 0).
+Proof. exact (to_hz_table i). Qed.
+Theorem c11_hz_undefined i : 12 < i -> to_hz i = Ok 0.
+Proof. exact (to_hz_undefined i). Qed.
+
+(* object type <-> profile mapping of the accepted object types *)
+Theorem c11_profile_map :
+  to_profile 1 = Ok 0 /\ to_profile 2 = Ok 1 /\ to_profile 3 = Ok 2 /\ to_profile 5 = Ok 1 /\ to_profile 29 = Ok 1 /\
+  to_object 0 = Ok 1 /\ to_object 1 = Ok 2 /\ to_object 2 = Ok 3 /\ to_object 3 = Ok 0.
+Proof. repeat split; reflexivity. Qed.
+
+(* Totality: no byte string makes a decoder panic (no well-formedness needed), for any
+   receiver state; the stream driver never runs out of fuel before a panic either. *)
+Theorem aac_adts_dec_total st data s : snd (adts_decode st data) <> Panic s.
+Proof. exact (adts_decode_total st data s). Qed.
+Theorem aac_asc_dec_total st data s : snd (asc_unmarshal st data) <> Panic s.
+Proof. exact (asc_unmarshal_total st data s). Qed.
+Theorem aac_adts_stream_total fuel st data acc s : snd (adts_stream fuel st data acc) <> Panic s.
+Proof. exact (adts_stream_total fuel st data acc s). Qed.
+
+(* a successful Decode returns a split of its input: 7 or 9 header bytes, raw, left *)
+Theorem c11_decode_shape st data a raw rest :
+  adts_decode st data = (a, Ok (raw, rest)) ->
+  exists hdr, data = hdr ++ raw ++ rest /\ (length hdr = 7 \/ length hdr = 9)%nat.
+Proof. exact (adts_decode_ok_shape st data a raw rest). Qed.
+
+(* ---- non-vacuity and regression witnesses ---- *)
+(* an accepted configuration, a CRC-protected ISO frame and a two-frame stream; the second is the
+   witness of the fixed defect (raw length = frame_length - 7 with CRC present, f39ffb3): the
+   remainder starts exactly at the second sync word *)
+Example c11_adts_rt_nonvacuous :
+  validate (mk_asc 2 4 2) = Ok tt /\
+  adts_encode (mk_asc 2 4 2) [1; 2; 3] = Ok [255; 241; 80; 128; 1; 64; 252; 1; 2; 3].
+Proof. vm_compute. split; reflexivity. Qed.
+
+Example c11_crc_witness :
+  let f1 := spec_adts_frame (mk_hdr 0 0 0 1 4 0 2 0 0 0 0 0 0 43707) [1; 2; 3] in
+  let f2 := [255; 241; 80; 128; 1; 0; 252; 9] in
+  f1 = [255; 240; 80; 128; 1; 128; 0; 170; 187; 1; 2; 3] /\
+  adts_decode asc0 (f1 ++ f2) = (mk_asc 2 4 2, Ok ([1; 2; 3], f2)) /\
+  adts_stream 100 asc0 (f1 ++ f2) [] = ([([1; 2; 3], mk_asc 2 4 2); ([9], mk_asc 2 4 2)], mk_asc 2 4 2, Ok tt).
+Proof. vm_compute. repeat split; reflexivity. Qed.
+
+Example c11_stream_nonvacuous :
+  Forall frame_ok [ (mk_hdr 1 0 0 0 3 1 6 1 0 1 0 2047 0 65535, [7; 8]); (mk_hdr 0 0 1 2 12 0 1 0 1 0 1 5 0 0, [9]) ].
+Proof.
+  repeat constructor; cbn; lia.
+Qed.
+
+(* the bound 8184 is sharp: one more byte overflows the 13-bit aac_frame_length and the
+   encoder's own output is no longer decoded *)
+Example c11_bound_sharp :
+  exists adts, adts_encode (mk_asc 2 4 2) (repeat 0 8185) = Ok adts /\
+               snd (adts_decode asc0 adts) <> Ok (repeat 0 8185, []).
+Proof. eexists. split; [vm_compute; reflexivity|]. vm_compute. discriminate. Qed.
+
+Print Assumptions c11_accepted.
+Print Assumptions c11_bound_sharp.
+Print Assumptions c11_adts_rt.
+Print Assumptions c11_setasc_rt.
+Print Assumptions c11_encoder_iso_layout.
+Print Assumptions c11_encode_rejects.
+Print Assumptions c11_iso_reader.
+Print Assumptions c11_frame_sync.
+Print Assumptions c11_stream.
+Print Assumptions c11_stream_step.
+Print Assumptions c11_asc_unmarshal.
+Print Assumptions c11_asc_sweep.
+Print Assumptions c11_asc_short.
+Print Assumptions c11_asc_marshal.
+Print Assumptions c11_asc_marshal_rejects.
+Print Assumptions c11_hz.
+Print Assumptions c11_hz_undefined.
+Print Assumptions c11_profile_map.
+Print Assumptions aac_adts_dec_total.
+Print Assumptions aac_asc_dec_total.
+Print Assumptions aac_adts_stream_total.
+Print Assumptions c11_decode_shape.
+Print Assumptions c11_adts_rt_nonvacuous.
+Print Assumptions c11_crc_witness.
+Print Assumptions c11_stream_nonvacuous.
